@@ -35,8 +35,17 @@ let rec int_of_nat = function O -> 0 | S k -> 1 + int_of_nat k
 (* memflag: run the ownership ledger (coq/ReaderMem.v) in lock step and print its predicted
    live block count after every op (command rdrmem).  There the 4th field is the C driver's
    failing-allocation index; the model's junk is 0. *)
-let run_rdr memflag = function
+let rec nat_of_int i = if i <= 0 then O else S (nat_of_int (i - 1))
+
+(* mode 0: rdr; 1: rdrmem; 2: rdrmemfail -- the ledger with failing allocations (coq/ReaderMemFail.v):
+   the 4th field is k, the allocation request that fails; after every op also rq=<requests so far> *)
+let run_rdr_mode mode = function
+  | [kind; policy; junk; hx; ops] when mode = 2 && (let k = int_of_string junk in k >= 1 && k <= 3) ->
+    (* lha_input_stream_new / lha_reader_new return NULL: the driver gives up *)
+    ((if int_of_string junk = 1 then "ERR stream" else "ERR reader") ^ " final=0 files=0", false)
   | [kind; policy; junk; hx; ops] ->
+    let memflag = mode >= 1 in
+    let kfail = if mode = 2 then int_of_string junk else 0 in
     let junk = if memflag then N0 else n_of_int (int_of_string junk) in
     let src = mk_source (D_hdr.kind_of kind) (bytes_of_hex hx) in
     let r = ref (lha_reader_new (lha_input_stream_new src)) in
@@ -46,13 +55,17 @@ let run_rdr memflag = function
     let ops = if ops = "-" then [] else String.split_on_char ',' ops in
     let lost = ref false in
     let m = ref (mem_new (policy = "plain")) in
-    let lb () = if memflag then Buffer.add_string b (Printf.sprintf " lb=%d" (int_of_nat (live_blocks !m))) in
+    let fm = ref (match fmem_new (policy = "plain") (nat_of_int kfail) with Some s -> s | None -> Obj.magic 0) in
+    let lb () =
+      if mode = 2 then Buffer.add_string b (Printf.sprintf " lb=%d rq=%d" (int_of_nat (f_live_blocks !fm)) (int_of_nat (!fm).f_rq))
+      else if memflag then Buffer.add_string b (Printf.sprintf " lb=%d" (int_of_nat (live_blocks !m))) in
     let line = (try
        List.iter (fun op ->
            let n = String.length op in
            (if op = "n" then begin
                let (h, r') =
-                 if memflag then (let (h, (r', m')) = get (ls_next mktime_utc (!r, !m)) in m := m'; (h, r'))
+                 if mode = 2 then (let (h, (r', m')) = get (fls_next mktime_utc (!r, !fm)) in fm := m'; (h, r'))
+                 else if memflag then (let (h, (r', m')) = get (ls_next mktime_utc (!r, !m)) in m := m'; (h, r'))
                  else get (lha_reader_next_file mktime_utc !r) in
                r := r';
                match h with
@@ -65,7 +78,8 @@ let run_rdr memflag = function
               let k = int_of_string (String.sub op 1 (n - 1)) in
               if read_loses_decoder !r then lost := true;
               let ((out, evs), r') =
-                if memflag then (let ((out, evs), (r', m')) = get (ls_read junk (!r, !m) (n_of_int k)) in m := m'; ((out, evs), r'))
+                if mode = 2 then (let ((out, evs), (r', m')) = get (fls_read junk (!r, !fm) (n_of_int k)) in fm := m'; ((out, evs), r'))
+                else if memflag then (let ((out, evs), (r', m')) = get (ls_read junk (!r, !m) (n_of_int k)) in m := m'; ((out, evs), r'))
                 else get (lha_reader_read junk !r (n_of_int k)) in
               r := r';
               let h = ref 0xcbf29ce484222325L in
@@ -77,7 +91,8 @@ let run_rdr memflag = function
               let mon = op = "cm" in
               if check_loses_decoder !r then lost := true;
               let ((res, evs), r') =
-                if memflag then (let ((res, evs), (r', m')) = get (ls_check junk (!r, !m) mon) in m := m'; ((res, evs), r'))
+                if mode = 2 then (let ((res, evs), (r', m')) = get (fls_check junk (!r, !fm) mon) in fm := m'; ((res, evs), r'))
+                else if memflag then (let ((res, evs), (r', m')) = get (ls_check junk (!r, !m) mon) in m := m'; ((res, evs), r'))
                 else get (lha_reader_check junk !r mon) in
               r := r';
               Buffer.add_string b (Printf.sprintf "%s=%d" op (if res then 1 else 0));
@@ -88,7 +103,9 @@ let run_rdr memflag = function
               let fname = if n >= 2 && op.[1] = 'f' then Some (bytes_of_hex (String.sub op 2 (n - 2))) else None in
               if check_loses_decoder !r then lost := true;
               let (((res, evs), r'), f') =
-                if memflag then (let (((res, evs), (r', m')), f') = get (ls_extract junk (!r, !m) !f fname mon) in
+                if mode = 2 then (let (((res, evs), (r', m')), f') = get (fls_extract junk (!r, !fm) !f fname mon) in
+                                  fm := m'; (((res, evs), r'), f'))
+                else if memflag then (let (((res, evs), (r', m')), f') = get (ls_extract junk (!r, !m) !f fname mon) in
                                  m := m'; (((res, evs), r'), f'))
                 else get (lha_reader_extract junk !r !f fname mon) in
               r := r'; f := f';
@@ -99,7 +116,13 @@ let run_rdr memflag = function
            lb ();
            Buffer.add_string b " ; ") ops;
        Buffer.add_string b "E";
-       if memflag then begin
+       if mode = 2 then begin
+         fm := get (f_free_reader !fm);
+         lb ();
+         fm := f_free_stream !fm;
+         Buffer.add_string b (Printf.sprintf " final=%d files=%d" (int_of_nat (f_live_blocks !fm)) (int_of_nat (!fm).f_m.m_files))
+       end
+       else if memflag then begin
          (* lha_reader_free, then lha_input_stream_free *)
          m := get (m_free_reader !m);
          lb ();
@@ -114,8 +137,10 @@ let run_rdr memflag = function
     (line, !lost)
   | _ -> ("ERR args", false)
 
+let run_rdr memflag = run_rdr_mode (if memflag then 1 else 0)
 let do_rdr args = fst (run_rdr false args)
 let do_rdrmem args = fst (run_rdr true args)
+let do_rdrmemfail args = fst (run_rdr_mode 2 args)
 
 (* rdrleak <same arguments>: only the model's prediction of LeakSanitizer's verdict *)
 let do_rdrleak args =
@@ -127,4 +152,4 @@ let do_rdrleak args =
   let faulted = ends_with "OUTOFFUEL" || has_fault (n - 6) in
   if faulted then "FAULT" else Printf.sprintf "LEAK=%d" (if lost then 1 else 0)
 
-let () = add "rdr" do_rdr; add "rdrleak" do_rdrleak; add "rdrmem" do_rdrmem
+let () = add "rdr" do_rdr; add "rdrleak" do_rdrleak; add "rdrmem" do_rdrmem; add "rdrmemfail" do_rdrmemfail
